@@ -42,6 +42,11 @@ pub fn run_one(
                 seed, tier == Tier::Thorough, &mask, &scratch
             )
         }
+        if property == "C24" {
+            return crate::engb::run_c24(
+                seed, tier == Tier::Thorough, &mask, &scratch
+            )
+        }
         if property == "C26" {
             return crate::enge::run(
                 seed, tier == Tier::Thorough, &mask, &scratch
